@@ -452,7 +452,16 @@ def crossing_stats(steps, periodic, stats):
 def run_case(args):
     i, sc, d = args
     symlib.write_case(d, sc)
-    rc, out = symlib.run_sympler(d, SYMPLER)
+    for attempt in range(6):
+        try:
+            rc, out = symlib.run_sympler(d, SYMPLER)
+            break
+        except (PermissionError, FileNotFoundError, OSError):
+            # the shared hooked binary is being relinked by another check; wait for it
+            import time
+            time.sleep(10)
+    else:
+        rc, out = 127, "cannot execute %s" % SYMPLER
     steps = symlib.parse_obs(os.path.join(d, "obs.txt")) if os.path.exists(os.path.join(d, "obs.txt")) else []
     return i, rc, out, steps
 
